@@ -1500,6 +1500,24 @@ pub trait QueryBuilder:
             && !drop_right_escape_hack
             && !drop_right_between_hack
             && !drop_right_as_hack;
+        if let (true, SimpleExpr::Binary(lower, _, upper)) = (drop_right_between_hack, right) {
+            // The bounds are operands of BETWEEN, not of a logical AND: a bound binding
+            // weaker than BETWEEN (e.g. a comparison) must keep its parentheses.
+            for (i, bound) in [lower, upper].into_iter().enumerate() {
+                if i > 0 {
+                    write!(sql, " AND ").unwrap();
+                }
+                let drop = self.inner_expr_well_known_greater_precedence(bound, &(*op).into());
+                if !drop {
+                    write!(sql, "(").unwrap();
+                }
+                self.prepare_simple_expr(bound, sql);
+                if !drop {
+                    write!(sql, ")").unwrap();
+                }
+            }
+            return;
+        }
         if right_paren {
             write!(sql, "(").unwrap();
         }
